@@ -137,3 +137,53 @@ func VerifC14AdminFilterPassesExactlyTheNamedCriteria() {
 	}
 	vrt.Assert("C14.admin.filter.limit-cursor-and-preview-as-named", got.Limit == wantLimit && got.PreviewOnly == preview && got.Before.Equal(wantBefore))
 }
+
+// verif:harness props=C15 tier=quick native=yes weight=15
+// verif:bounds resolvePublishTarget (which target a published item is stored for): the route has 0, 1 or 2 allowed targets ("pull", "https://t/H"); the item names no target or any ASCII string of 0..4 symbolic bytes (thorough 5) or a case variant / padded spelling of an allowed target: the stored target is ALWAYS one of the route's allowed targets, verbatim
+func VerifC15PublishTargetIsAnAllowedTargetVerbatim() {
+	l := 4
+	if vrt.Thorough() {
+		l = 5
+	}
+	allowedMenu := [][]string{nil, {"pull"}, {"pull", "https://t/H"}, {"https://t/H"}}
+	allowed := allowedMenu[vrt.Choose("allowed-targets", len(allowedMenu))]
+	var target string
+	switch k := vrt.Choose("named-target", 6); k {
+	case 0:
+		target = ""
+	case 1:
+		target = " pull "
+	case 2:
+		target = "PULL"
+	case 3:
+		target = "https://t/h"
+	case 4:
+		target = "https://t/H"
+	default:
+		target = vrt.String("target-bytes", l)
+		for i := 0; i < len(target); i++ {
+			vrt.Assume(target[i] < 0x80)
+		}
+	}
+	got, ok := resolvePublishTarget(target, allowed)
+	vrt.Observe("ok", ok)
+	if ok {
+		vrt.Cover("target.resolved")
+		in := false
+		for _, a := range allowed {
+			in = in || got == a
+		}
+		vrt.Assert("C15.target.stored-target-is-one-of-the-routes-allowed-targets", in)
+		named := hTrimASCII(target)
+		vrt.Assert("C15.target.a-named-target-resolves-only-to-itself", named == "" || got == named)
+		vrt.Assert("C15.target.no-name-resolves-only-when-the-route-has-one-target", named != "" || len(allowed) == 1)
+	} else {
+		named := hTrimASCII(target)
+		for _, a := range allowed {
+			vrt.Assert("C15.target.an-allowed-target-named-verbatim-is-accepted", named != a)
+		}
+		if len(allowed) == 0 {
+			vrt.Cover("target.route-without-targets")
+		}
+	}
+}
